@@ -19,11 +19,7 @@ PROP = dict(
              "entry points as in keeper/swap.go:672: OrderBook.Match(lastPrice) (55%), FindMatchPrice(book view + pool views)+pool orders at the match price+"
              "MatchAtSinglePrice (15%), MatchAtSinglePrice at a tick (10%), SortOrders+DistributeOrderAmountToOrders on one tick's orders (20%); "
              "6 fixed regression cases first (the C05-F1 witness at three levels). non-trivial = the call produced at least one fill; distinct by digest "
-<<<<<<< HEAD
              "of (entry point, orders, price). thorough adds every book with <=2 orders per side (and every 397th with <=3), amounts 1..6, four "
-             "neighbouring ticks 0.48-0.51, against each tick as last price",
-=======
-             "of (entry point, orders, price). thorough adds every book with <=2 orders per side (and every 97th with <=3), amounts 1..6, four "
              "neighbouring ticks 0.48-0.51, against each tick as last price. keeper-orders: case = the C07 order history through the REAL msg server / EndBlocker (pools on 15% of the pairs), 85% of the "
              "cases with the order-life scenario (a long-lived order partially matched in its first batch, the last price moved past it, then matched again tick by tick by ladders of small counter orders "
              "in later batches); before every EndBlocker the book of every pair is observed through the real types.NewUserOrder and keeper.Match (pool orders included) and replayed on AMM.run_match / "
@@ -33,7 +29,6 @@ PROP = dict(
              "an order and tries, on a throw-away cache context through the real keeper.Match, single limit orders that consume such a tick only in part; the first order whose batch does not conserve "
              "the base coin is placed for real and the real EndBlocker runs on it (C05-F1: holds_C05_base fails inside kf_C05_1; C05-F2: when the escrow cannot cover the deficit the app's batch is rolled "
              "back at every following block - endblock_batch_executed fails inside kf_C05_2_stall; the runner hands the engine's fills to the model, which rolls back as well)",
->>>>>>> liq2
         modelled=["sdk.Int/sdk.Dec 256/315-bit overflow panics (not modelled; amounts < 2^100)",
                   "FindMatchPrice and the pool order generators PoolBuyOrders/PoolSellOrders are NOT modelled: their outputs (match price, pool orders) "
                   "are taken from the implementation as inputs; the property predicates do not depend on how the price or the orders were chosen",
